@@ -7,7 +7,7 @@ export DEMO_ENV="$(python3 - "$md/meta.json" <<'PY'
 import json,re,sys
 try: m=json.load(open(sys.argv[1]))
 except Exception: m={}
-t=" ".join(str(m.get(k,"")) for k in ("demo_run","demo_env","how_to_run","run"))
+t=" ".join(str(v) for k,v in m.items() if "demo" in k or "run" in k or "env" in k)
 a=re.search(r"QT_NUM_SHEPHERDS=(\d+)",t); b=re.search(r"QT_NUM_WORKERS_PER_SHEPHERD=(\d+)",t)
 print(" ".join(x for x in [("QT_NUM_SHEPHERDS="+a.group(1)) if a else "", ("QT_NUM_WORKERS_PER_SHEPHERD="+b.group(1)) if b else ""] if x))
 PY
@@ -21,4 +21,4 @@ echo "$name check: $res"
 mkdir -p /verif/seeded/$name; cp $wt/_patch_vs_head.diff /verif/seeded/$name/patch.diff; cp "$md"/demo.c "$md"/meta.json /verif/seeded/$name/ 2>/dev/null; cp "$md"/RUN.txt /verif/seeded/$name/ 2>/dev/null
 echo "$res" > /verif/seeded/$name/check_result.txt
 git -C /repo worktree remove --force $wt
-/var/tmp/mutkit/verify_mutant.sh $id /verif/seeded/$name $name 2>&1 | tail -12
+/var/tmp/mutkit/verify_mutant2.sh $id /verif/seeded/$name $name 2>&1 | tail -12
